@@ -1,8 +1,12 @@
 #[cfg(test)]
 mod tests;
 
+#[cfg(not(rws_verif_shuttle))]
 use std::{thread};
+#[cfg(not(rws_verif_shuttle))]
 use std::sync::{Arc, mpsc, Mutex};
+#[cfg(rws_verif_shuttle)]
+use shuttle::{thread, sync::{Arc, mpsc, Mutex}};
 
 pub struct ThreadPool {
     _workers: Vec<Worker>,
@@ -35,6 +39,8 @@ impl ThreadPool {
             F: FnOnce() + Send  + 'static,
     {
         let job = Box::new(f);
+        #[cfg(rws_verif)]
+        crate::rws_verif_hooks::pool_event(crate::rws_verif_hooks::POOL_EVENT_SUBMIT, 0);
         let boxed_send = self.sender.send(job);
         if boxed_send.is_err() {
             eprintln!("unable to send job: {}", boxed_send.err().unwrap());
@@ -60,15 +66,23 @@ impl Worker {
             if boxed_lock.is_err() {
                 eprintln!("Worker {} -> unable to acquire lock {}", id, boxed_lock.err().unwrap());
             } else {
+                #[cfg(rws_verif)]
+                crate::rws_verif_hooks::pool_event(crate::rws_verif_hooks::POOL_EVENT_LOCKED, id);
                 let boxed_job = boxed_lock.unwrap().recv();
                 if boxed_job.is_err() {
                     eprintln!("Worker {} -> unable to get job to execute {}", id, boxed_job.err().unwrap());
+                    #[cfg(rws_verif_shuttle)]
+                    break;
                 } else {
                     let job = boxed_job.unwrap();
+                    #[cfg(rws_verif)]
+                    crate::rws_verif_hooks::pool_event(crate::rws_verif_hooks::POOL_EVENT_RECEIVED, id);
 
                     println!("Worker {} got a job; executing.", id);
 
                     job();
+                    #[cfg(rws_verif)]
+                    crate::rws_verif_hooks::pool_event(crate::rws_verif_hooks::POOL_EVENT_FINISHED, id);
                 }
 
             }
